@@ -17,7 +17,8 @@ Definition grun := run gen_failed_one reject_keeps accept_adds_dt update_plus cl
 Definition tclose (a : Qc) (b : Q) : bool := Qle_bool (Qabs (this a - b)) ((1 # 1000000000) * (1 + Qabs b)).
 Definition rec_eqb (r : rec) (e : list Q * list Z * Q) : bool :=
   let '(x, n, t) := r in let '(ex, en, et) := e in
-  list_eqb Qc_eq_bool x (qv ex) && list_eqb Z.eqb n en && tclose t et.
+  (* states: exact for integer-valued paths (differences are >= 1); with explicit ODE drift pygom's floats carry rounding *)
+  list_eqb2 tclose x ex && list_eqb Z.eqb n en && tclose t et.
 
 (* case: V columns, limits, horizon, x0, t0, schedule, recorded path (first row = start) *)
 Definition pcase := (list (list Q) * list (option Q * option Q) * Q * list Q * Q * list lstep * list (list Q * list Z * Q))%type.
